@@ -1,7 +1,7 @@
 CHECK = {
     "suites": [suite("rounds", "c10", 2500, 150000, stdin=True), suite("dist", "c10dist", 3000, 200000, stdin=True)],
-    "gen": [{"pkg": "extract_c10", "out": "lean/ClusterVerif/Gen/C10.lean"}],
-    "lean_sources": ["ClusterVerif/Model/C10Source.lean", "ClusterVerif/Gen/C10.lean", "ClusterVerif/Model/Pin.lean", "ClusterVerif/Model/C04.lean", "ClusterVerif/Model/C10.lean", "ClusterVerif/Spec/C10.lean", "ClusterVerif/Model/C10Dist.lean", "ClusterVerif/Spec/C10Dist.lean", "ClusterVerif/Lemmas/C10Dist.lean",
+    "gen": [{"pkg": "extract_c10", "out": "lean/ClusterVerif/Gen/C10.lean"}, {"pkg": "extract_c10sem", "out": "lean/ClusterVerif/Gen/C10Sem.lean"}],
+    "lean_sources": ["ClusterVerif/Model/C10Source.lean", "ClusterVerif/Gen/C10.lean", "ClusterVerif/Model/Pin.lean", "ClusterVerif/Model/C04.lean", "ClusterVerif/Model/C10.lean", "ClusterVerif/Spec/C10.lean", "ClusterVerif/Model/C10Dist.lean", "ClusterVerif/Spec/C10Dist.lean", "ClusterVerif/Lemmas/C10Dist.lean", "ClusterVerif/Model/C10Sem.lean", "ClusterVerif/Gen/C10Sem.lean",
                      "ClusterVerif/Model/C03.lean", "ClusterVerif/Spec/C03.lean", "ClusterVerif/Lemmas/C10.lean", "ClusterVerif/Props/C10.lean"],
     "rule": "one case = one round over a shared pinset of 1-6 pins and 1-8 members: a ping alert for one member delivered to the real alertsHandler of every other "
             "(trusted) member, or one member running PeerRemove (LogPin / RmPeer call order recorded, RmPeer optionally failing, metrics optionally too scarce for some "
@@ -14,6 +14,8 @@ CHECK = {
             "Suite dist: one case = 1-8 members with chosen 32-byte hashes (injected through the checker's own cache) or real ones, 1-4 cids asked in order on ONE real "
             "distanceChecker per surviving member (hook VerifDistanceChecker), optional excluded member; hash relations: common prefix of 0/1/3/4/7/8/15/16/23/24/30/31 bytes, "
             "last bits only, edge bytes 00/01/7f/80/81/fe/ff, a member on the cid (distance 0), collisions, excluded member closest; every 10th case the real xor() on edge arrays; "
+            "Suite rounds additionally gives every member a PRIVATE ping view (which peers its own monitor holds a valid / expired / invalid / no ping metric for, a function of "
+            "the pair (member, peer)): not part of the agreed peerset, invisible to the model, so the unchanged code must not depend on it. "
             "arms dist-prefix-*, dist-collision, dist-alone, dist-members-n, dist-cids-n, dist-{real,injected,mixed}-hashes, dist-excluded-is-closest, dist-zero-distance, xor-*",
     "trusted_base": ["FakeConsensus shared by the members of a round (a real dsstate applying LogPin/LogUnpin directly), wrapped per member (harness/c10/cons.go: own Peers() view, call record, failing RmPeer); "
                      "snapshot discipline: the harness replays the recorded LogPin/LogUnpin on a fresh dsstate in a seeded order, as a consensus layer would",
@@ -22,6 +24,10 @@ CHECK = {
                      "(bytes_compare_is_numeric_order, bytes_xor_is_numeric_xor, isClosestB_eq_model) and suite dist runs the real comparison on byte arrays",
                      "suite dist: chosen hashes reach the real isClosest through the checker's cache map (hook /repo/verif_export_c10.go, adds code only); hashes of non-injected members and of cids "
                      "are computed by the harness with an independent blake2b-256 (go-multihash/blake2b-simd)"],
+    "semantic_tie": "harness/extract_c10sem (go/ast) -> Gen/C10Sem.lean: getTrustedPeers as a filter (source list, atoms of the continue guard, what is appended and returned), "
+                    "distances() as a constructor (local id, dataflow of otherPeers back to getTrustedPeers(exclude), fresh cache, every receiver selector it reads), isClosest (what is hashed, "
+                    "operands of both xors, operands/slices/operator of bytes.Compare, both return values), the two call sites (exclude argument, one checker per event in the loop's own block, "
+                    "conjuncts of the test, guarded call), xor loop; Model/C10Sem.lean interprets these values; unknown shapes become `other`/`extra` and are refused",
     "assumptions": ["blake2b-256 hashes of distinct members are distinct (collision freeness)",
                     "members agree on the peerset and on who is trusted (the property's own proviso; without it `disagreement_two_repinners` / `disagreement_nobody` show the claim fails, and the first is replayed on the real code from the corpus); untrusted members do not act",
                     "pinsets of plain data pins for the expiry round theorem (sharded content is removed with its root: C04)"],
@@ -43,5 +49,5 @@ META = {
             "member closest per cid when hashes are distinct' and 'somebody closest' evaluated on its answers. The round model is tied to the code by running real Cluster instances over real dsstates "
             "and comparing final pinset and per-member LogPin/LogUnpin/RmPeer calls; the Lean property clauses are evaluated on the implementation's outputs.",
     "note": "Trusted: Lean kernel, hand-written model/spec, harness (shared fake consensus, alert delivery barrier), verif_export.go; hash collision-freeness is a hypothesis.",
-    "technique": "Lean 4 theorems (xor-distance uniqueness, step preservation, memoryless handler loop) + regenerated source text of the anchored functions checked against the transcribed snapshot (rfl) + differential correspondence per round on real Cluster instances + the real distanceChecker on injected adversarial 32-byte hashes against the byte-level model",
+    "technique": "Lean 4 theorems (xor-distance uniqueness, step preservation, memoryless handler loop) + regenerated source text of the anchored functions checked against the transcribed snapshot (rfl) + go/ast semantic translation of getTrustedPeers / distances / isClosest / call sites interpreted by the model (candidate set = function of the agreed peerset) + differential correspondence per round on real Cluster instances + the real distanceChecker on injected adversarial 32-byte hashes against the byte-level model",
 }
